@@ -22,7 +22,8 @@ KeyChoices(gs) == LET gks == KeysFor(gs) \ {0} IN
 
 Shape(gs, gk, gn, gc) == [kind |-> "dbc", schema |-> gs, key |-> gk, n |-> gn, strcls |-> gc,
                           rs |-> RecordSize(gs), fc |-> FieldCount(gs), offs |-> FieldOffsets(gs),
-                          size0 |-> FileSize(gn, RecordSize(gs), 0)]
+                          size0 |-> FileSize(gn, RecordSize(gs), 0),
+                          routes |-> IF gn <= 128 THEN SetToSeq(RoutesFor(gn)) ELSE <<>>]
 
 One == {<<gf>> : gf \in FieldSet}
 Two == {<<gf, gg>> : gf \in FieldSet, gg \in FieldSet}
